@@ -294,6 +294,14 @@ static int replay_C01(const Args& a)
    if (want("symbol")) CLAUSE(&lex.get_symbol(id, i) == &lex.get_symbol(id, i) && &lex.get_label(id) == &lex.get_label(id) && &lex.get_this(i) == &lex.get_this(i), "symbols, labels and this are unified");
    if (want("linkage")) CLAUSE(&lex.get_linkage(u8"Java") == &lex.get_linkage(u8"Java") && &lex.get_calling_convention(u8"cdecl") == &lex.get_calling_convention(u8"cdecl"), "linkages and calling conventions are unified");
    if (want("logogram")) CLAUSE(&lex.get_logogram(lex.get_string(u8"xyz")) == &lex.get_logogram(lex.get_string(u8"xyz")), "logograms are unified");
+   // a spelling has a single Identifier everywhere: reserved spellings are the names of the built-in types and constants
+   if (want("reserved")) {
+      CLAUSE(&lex.get_identifier(u8"int") == &lex.int_type().name(), "get_identifier(\"int\") is the name of the built-in type int, not a look-alike");
+      CLAUSE(&lex.get_identifier(lex.get_string(u8"unsigned long")) == &lex.ulong_type().name(), "get_identifier(String \"unsigned long\") is the name of the built-in type");
+      CLAUSE(&lex.get_identifier(u8"default") == &lex.default_value().name(), "get_identifier(\"default\") is the name of the `default` constant");
+      CLAUSE(&lex.get_label(lex.get_identifier(u8"default")) == &lex.default_value(), "the label spelled default is the default constant");
+      CLAUSE(&lex.get_logogram(lex.get_string(u8"int")).what() == &lex.get_string(u8"int") && &lex.get_linkage(u8"C") == &lex.c_linkage() && &lex.get_linkage(lex.get_string(u8"C++")) == &lex.cxx_linkage(), "reserved logograms and the two standard linkages are the constants");
+   }
    return fails;
 }
 
